@@ -41,7 +41,10 @@ def inject(dst, unit, unit_dir, cfg):
         with open(os.path.join(unit_dir, inj['harness'])) as f:
             htxt = f.read()
         with open(target, 'a') as f:
-            f.write(f"\n#[cfg(kani)]\n#[allow(unused, dead_code)]\nmod verif_kani_{unit.replace('-', '_')} {{\n    use super::*;\n{htxt}\n}}\n")
+            if inj.get('raw'):
+                f.write('\n' + htxt + '\n')
+            else:
+                f.write(f"\n#[cfg(kani)]\n#[allow(unused, dead_code)]\nmod verif_kani_{unit.replace('-', '_')} {{\n    use super::*;\n{htxt}\n}}\n")
         notes.append(f"harness module appended to {inj['into']} (cfg(kani) only)")
     # contracts: attributes inserted above the real fn (scratch copy only)
     byfile = {}
